@@ -645,6 +645,11 @@ func main() {
 	b.WriteString("/-- functions of package client that call RowsShallow, with whether they clone what they keep -/\n")
 	b.WriteString("def clientShallowUsers : List (String × Bool) := [" + strings.Join(shallowUsers, ", ") + "]\n\n")
 	summary["cache_raw_escapes"] = len(escapes)
+	// C18: every rpc2 codec is wrapped so that requests and responses are not written concurrently
+	codecs := codecFacts(*repo)
+	b.WriteString("/-- rpc2 codecs of packages client and server that are handed to rpc2 without the serializing wrapper,\n    and wrapper methods that do not take the wrapper's mutex around the write (rpc2 writes responses under no lock) -/\n")
+	b.WriteString("def rpcCodecsUnserialized : List String := [" + quoteAll(codecs) + "]\n\n")
+	summary["rpc_codecs_unserialized"] = len(codecs)
 	b.WriteString("end Ovsdb.Generated\n")
 	if *out != "" {
 		os.MkdirAll(*out, 0o755)
@@ -657,6 +662,107 @@ func main() {
 	}
 	j, _ := json.Marshal(summary)
 	fmt.Println(string(j))
+}
+
+// codecFacts: in packages client and server, (1) every argument of rpc2.NewClientWithCodec / ServeCodec /
+// ServeCodecWithState is a call of newSerialCodec; (2) newSerialCodec's result type has WriteRequest and
+// WriteResponse methods whose first two statements are X.Lock() and defer X.Unlock() on a field of the receiver.
+// Returns the places where that is not so.
+func codecFacts(repo string) []string {
+	var bad []string
+	for _, pkg := range []string{"client", "server"} {
+		fset := token.NewFileSet()
+		pkgs, err := parser.ParseDir(fset, filepath.Join(repo, pkg), func(fi os.FileInfo) bool {
+			return !strings.HasSuffix(fi.Name(), "_test.go")
+		}, 0)
+		if err != nil {
+			fmt.Fprintln(os.Stderr, err)
+			os.Exit(1)
+		}
+		uses, locked := 0, map[string]bool{}
+		for _, p := range pkgs {
+			for fname, f := range p.Files {
+				ast.Inspect(f, func(n ast.Node) bool {
+					switch x := n.(type) {
+					case *ast.CallExpr:
+						sel, ok := x.Fun.(*ast.SelectorExpr)
+						if !ok || len(x.Args) == 0 {
+							return true
+						}
+						if sel.Sel.Name == "NewClientWithCodec" || sel.Sel.Name == "ServeCodec" || sel.Sel.Name == "ServeCodecWithState" {
+							uses++
+							inner, ok := x.Args[0].(*ast.CallExpr)
+							id, ok2 := (ast.Expr)(nil), false
+							if ok {
+								id, ok2 = inner.Fun, true
+							}
+							name := ""
+							if ok2 {
+								if i, ok := id.(*ast.Ident); ok {
+									name = i.Name
+								}
+							}
+							if name != "newSerialCodec" {
+								bad = append(bad, fmt.Sprintf("%s/%s:%d %s without newSerialCodec", pkg, filepath.Base(fname), fset.Position(x.Pos()).Line, sel.Sel.Name))
+							}
+						}
+					case *ast.FuncDecl:
+						if x.Recv == nil || len(x.Recv.List) != 1 || (x.Name.Name != "WriteRequest" && x.Name.Name != "WriteResponse") {
+							return true
+						}
+						recvType := ""
+						if st, ok := x.Recv.List[0].Type.(*ast.StarExpr); ok {
+							if i, ok := st.X.(*ast.Ident); ok {
+								recvType = i.Name
+							}
+						}
+						if recvType != "serialCodec" || x.Body == nil || len(x.Body.List) < 3 {
+							return true
+						}
+						lockOf := func(s ast.Stmt, deferred bool, want string) string {
+							var c *ast.CallExpr
+							if deferred {
+								d, ok := s.(*ast.DeferStmt)
+								if !ok {
+									return ""
+								}
+								c = d.Call
+							} else {
+								e, ok := s.(*ast.ExprStmt)
+								if !ok {
+									return ""
+								}
+								c, ok = e.X.(*ast.CallExpr)
+								if !ok {
+									return ""
+								}
+							}
+							sel, ok := c.Fun.(*ast.SelectorExpr)
+							if !ok || sel.Sel.Name != want {
+								return ""
+							}
+							return mutexName(sel.X)
+						}
+						l, u := lockOf(x.Body.List[0], false, "Lock"), lockOf(x.Body.List[1], true, "Unlock")
+						if l != "" && l == u {
+							locked[x.Name.Name] = true
+						}
+					}
+					return true
+				})
+			}
+		}
+		if uses == 0 {
+			bad = append(bad, pkg+": no rpc2 codec found")
+		}
+		for _, m := range []string{"WriteRequest", "WriteResponse"} {
+			if !locked[m] {
+				bad = append(bad, pkg+": serialCodec."+m+" does not hold the write mutex")
+			}
+		}
+	}
+	sort.Strings(bad)
+	return bad
 }
 
 // initialismFacts: the string keys of the composite literal assigned to the package variable `initialisms`
